@@ -93,6 +93,36 @@ def hostile(rng):
             f"comment 0 1 {hx(b'aa')} {hx(b'zz')}", f"remove 0 1 {hx(b'bb')}", "free 0 1", "unmount 0 1", "closedev 0"]
     return ops
 
+def hostile_selfptr(exe, rng, i):
+    """the header block of a file on the FIRST partition (which is followed by another one) gets a self pointer (headerKey)
+    between the partition's size and the device's end, checksum re-fixed; operations that write the block back to where
+    it says it lives must be refused by the volume's range check, not land in the next partition"""
+    import struct, fsck
+    cyl, heads, secs = 200, 2, 16
+    hx = gen.hx
+    pre = [f"newdev 0 {cyl} {heads} {secs}", "clock 2016 1 1 1 1 1", f"mkhd 0 2 2 60 {hx(b'one')} {rng.choice([0, 1, 3])} 62 100 {hx(b'two')} 1",
+           "closedev 0", "opendev 0 0", "mount 0 0 0", f"open 1 0 0 {hx(b'victim')} 2", "write 1 3000 1", "close 1", f"mkdir 0 0 {hx(b'dd')}", "unmount 0 0",
+           "mount 0 1 0", f"open 1 0 1 {hx(b'other')} 2", "write 1 2000 2", "close 1", "unmount 0 1"]
+    p = os.path.join(vlib.scratch(), f"c13self_{i}.img")
+    vlib.run_c(exe, pre + [f"dumpimg 0 {p}", "closedev 0"], timeout=120)
+    img = open(p, "rb").read(); os.unlink(p)
+    first = heads * secs * 2; n1 = heads * secs * 60
+    f = fsck.fsck_image(img, first, n1, want_data=False)
+    node = next((k for k in f.root.kids.values() if k.name == b"victim"), None) if f.root else None
+    if node is None: return None
+    blk = bytearray(img[(first + node.block) * 512:(first + node.block + 1) * 512])
+    bad_key = rng.choice([n1, n1 + 1, n1 + first - 1, n1 + rng.randrange(first)])
+    struct.pack_into(">I", blk, 4, bad_key)
+    struct.pack_into(">I", blk, 20, 0)
+    s = sum(struct.unpack(">128I", blk)) & 0xffffffff
+    struct.pack_into(">I", blk, 20, (-s) & 0xffffffff)
+    off = (first + node.block) * 512
+    muts = [f"pokeimg 0 {off + 4} {blk[4:8].hex()}", f"pokeimg 0 {off + 20} {blk[20:24].hex()}"]
+    ops = pre + ["closedev 0"] + muts + ["opendev 0 0", "mount 0 0 0", f"open 1 0 0 {hx(b'victim')} 3", "seek 1 3000", "write 1 10 5", "close 1",
+          f"comment 0 0 {hx(b'victim')} {hx(b'c')}", f"access 0 0 {hx(b'victim')} 2", f"rename 0 0 {hx(b'victim')} {hx(b'v2')}", f"remove 0 0 {hx(b'v2')}",
+          "unmount 0 0", "closedev 0"]
+    return ops
+
 def run(res):
     res.cov["rule"] = ("seeded `rdb` disks: 1-4 partitions (heads 1/2/4, sectors 8..32, random cylinder ranges with gaps), a namespace or file history on one partition, a light touch of another, "
                        "read-only remount of all; plus hostile pointers (negative, huge, other partition) poked into a partition's root block; distinct by (layout, partition, first ops)")
@@ -101,6 +131,9 @@ def run(res):
     n = 40 if res.tier == "quick" else 800
     sp = [(with_dumps(gen.gen_rdb(vlib.rng_for(res.seed, f"C13/{i}"))), True) for i in range(n)]
     sp += [(with_dumps(hostile(vlib.rng_for(res.seed, f"C13h/{i}"))), False) for i in range(n // 2)]
+    for i in range(6 if res.tier == "quick" else 60):
+        o = hostile_selfptr(exe, vlib.rng_for(res.seed, f"C13s/{i}"), i)
+        if o: sp.append((with_dumps(o), False))
     from concurrent.futures import ThreadPoolExecutor
     def one(t): return (t[0],) + hist.run_plain(exe, t[0], lean=t[1])
     bad, ties = [], []
